@@ -205,7 +205,7 @@ func TestC03Scale(t *testing.T) {
 func TestC04Scale(t *testing.T) {
 	seedNote(t)
 	StartWatchdog("C04", 90*time.Second)
-	st := NewStats("C04", "scale", "the same fifteen bodies x multi-line texts of 0.5..4 kB: the match list A of `all` (hundreds of matches) against clauses with s, t, n drawn around 0, |A|/2 and |A| (+-2) for find and replace .. with 'X' matchNumber; compared field by field; non-trivial = |A| >= 50 and a proper non-empty window; distinct by (body, text, clause)")
+	st := NewStats("C04", "scale", "the same fifteen bodies x multi-line texts of 0.5..4 kB: the match list A of `all` (hundreds of matches) against clauses with s, t, n drawn around 0, |A|/2 and |A| (+-2) for find and replace .. with 'X' matchNumber and a transform reading matchNumber; compared field by field; non-trivial = |A| >= 50 and a proper non-empty window; distinct by (body, text, clause)")
 	defer st.Write()
 	rapid.Check(t, func(t *rapid.T) {
 		bi := rapid.IntRange(0, len(scaleBodies)-1).Draw(t, "body")
